@@ -30,7 +30,8 @@ def assignment_bits(n, assignment):
 
     Raises AssertionError (a harness error) when it is not a total assignment."""
     lits = list(assignment)
-    assert sorted(abs(l) for l in lits) == list(range(1, n + 1)), (n, lits)
+    # a literal may be listed more than once; opposite literals are not an assignment
+    assert sorted(set(abs(l) for l in lits)) == list(range(1, n + 1)) and len(set(lits)) == n, (n, lits)
     a = 0
     for l in lits:
         if l > 0:
